@@ -1,12 +1,22 @@
 """Fail-closed `ast` extractor for the control-flow skeleton of monkeytype/tracing.py (CallTracer.handle_call,
 handle_return, __call__, trace_calls) and monkeytype/db/base.py (CallTraceStoreLogger).  Writes
 coq/Gen/TracerConstants.v; Model/Tracer.v and the C02/C03/C18 theorems are stated over these constants, so a
-source change reaches the proofs.  Any shape that is not recognised aborts the extraction (nothing written)."""
+source change reaches the proofs.  Any shape that is not recognised aborts the extraction (nothing written).
+
+Every function is first brought into the normal form of harness/ast_canon.py (names of locals, annotations,
+early returns vs. nested ifs, De Morgan, module constants, private helpers, single-use temporaries ...: see there
+for the rewrites and their side conditions), so that a behaviour-preserving refactoring of tracing.py yields the
+same constants; the matchers below are exact matches against that normal form and nothing else is accepted."""
 import ast
 import os
+import re
 
-from harness import common
+from harness import ast_canon, common
 from harness.extract_constants import ExtractError, _parse, _find_class, _find_func, _find_assign, _cs
+
+# Private helpers that are steps of the skeleton themselves (kept as calls; every other private helper of the module
+# is inlined by the canonicaliser before matching).
+KEEP_CALLS = {"_get_func"}
 
 
 def _src(node):
@@ -32,10 +42,57 @@ def _opcode_table(tree):
     return ops
 
 
-def _ops_of_test(test, ops):
-    """`last_opcode == X`  or  `last_opcode in (X, Y)`  ->  [names]"""
-    if not (isinstance(test, ast.Compare) and isinstance(test.left, ast.Name) and test.left.id == "last_opcode"
-            and len(test.ops) == 1):
+class Canon:
+    """The functions of one module in the normal form of harness/ast_canon.py (computed on demand)."""
+
+    def __init__(self, tree, universe):
+        self.tree = tree
+        self.mod = ast_canon.ModuleInfo(tree, universe)
+
+    def func(self, name, cls=None):
+        fn = _find_func(self.tree if cls is None else None, name, cls)
+        try:
+            return ast_canon.canonical_function(self.mod, fn, cls, KEEP_CALLS)      # -> (FunctionDef, Ctx)
+        except Exception as e:      # the canonicaliser is total on valid Python; anything else fails closed
+            raise ExtractError(f"canonicaliser failed on {name}: {type(e).__name__}: {e}")
+
+
+class Env:
+    """Strict template matching modulo the names of locals.  A template is Python source in which identifiers
+    `L_<x>` stand for locals of the normal form (`_v<k>`); a placeholder is bound by the first template that lists
+    it in `bind`, to a local no other placeholder is bound to, and has to be that same local ever after."""
+
+    def __init__(self):
+        self.b = {}
+
+    def m(self, node, template, bind=()):
+        want = ast.unparse(ast.parse(template, mode="eval" if isinstance(node, ast.expr) else "exec"))
+        rx, new = "", []
+        for k, part in enumerate(re.split(r"\bL_(\w+)\b", want)):
+            if k % 2 == 0:
+                rx += re.escape(part)
+            elif part in self.b:
+                rx += re.escape(self.b[part])
+            elif part in new:
+                rx += f"(?P=L_{part})"
+            elif part in bind:
+                rx += f"(?P<L_{part}>_v\\d+)"
+                new.append(part)
+            else:
+                return False
+        mo = re.fullmatch(rx, ast.unparse(node))
+        if mo is None:
+            return False
+        got = [mo.group("L_" + n) for n in new]
+        if len(set(got)) != len(got) or set(got) & set(self.b.values()):
+            return False
+        self.b.update(zip(new, got))
+        return True
+
+
+def _ops_of_test(test, ops, env):
+    """`L_op == X`  or  `L_op in (X, Y)`  ->  [names]"""
+    if not (isinstance(test, ast.Compare) and env.m(test.left, "L_op") and len(test.ops) == 1):
         raise ExtractError("opcode test: " + _src(test))
     rhs = test.comparators[0]
     if isinstance(test.ops[0], ast.Eq) and isinstance(rhs, ast.Name):
@@ -53,36 +110,33 @@ def _ops_of_test(test, ops):
     return out
 
 
-def _strip_doc(body):
-    return [s for s in body if not (isinstance(s, ast.Expr) and isinstance(s.value, ast.Constant))]
-
-
-def handle_return(cls, ops):
-    fn = _find_func(None, "handle_return", cls)
-    body = _strip_doc(fn.body)
-    # typ = get_type(arg, ...); last_opcode = frame.f_code.co_code[frame.f_lasti]; trace = self.traces.get(frame); if ...
+def handle_return(canon, cls, ops):
+    fn, _cx = canon.func("handle_return", cls)
+    body, env = fn.body, Env()
+    # Normal form of
+    #   typ = get_type(arg, ...); last_opcode = frame.f_code.co_code[frame.f_lasti]; trace = self.traces.get(frame)
+    #   if trace is None: return / elif <yield op>: ... / else: ...
+    # is   L_typ = ...; L_op = ...; L_trace = ...; if L_trace is not None: (if <yield op>: ... else: ...)
     if len(body) != 4:
         raise ExtractError("handle_return: expected 4 statements")
-    if _src(body[0]) != "typ = get_type(arg, max_typed_dict_size=self.max_typed_dict_size)":
+    if not env.m(body[0], "L_typ = get_type(arg, max_typed_dict_size=self.max_typed_dict_size)", bind=["typ"]):
         raise ExtractError("handle_return[0]: " + _src(body[0]))
-    if _src(body[1]) != "last_opcode = frame.f_code.co_code[frame.f_lasti]":
+    if not env.m(body[1], "L_op = frame.f_code.co_code[frame.f_lasti]", bind=["op"]):
         raise ExtractError("handle_return[1]: " + _src(body[1]))
-    if _src(body[2]) != "trace = self.traces.get(frame)":
+    if not env.m(body[2], "L_trace = self.traces.get(frame)", bind=["trace"]):
         raise ExtractError("handle_return[2]: " + _src(body[2]))
     top = body[3]
-    if not (isinstance(top, ast.If) and _src(top.test) == "trace is None" and len(top.body) == 1
-            and isinstance(top.body[0], ast.Return) and top.body[0].value is None and len(top.orelse) == 1
-            and isinstance(top.orelse[0], ast.If)):
+    if not (isinstance(top, ast.If) and env.m(top.test, "L_trace is not None") and not top.orelse
+            and len(top.body) == 1 and isinstance(top.body[0], ast.If)):
         raise ExtractError("handle_return: `if trace is None: return / elif` skeleton")
-    y = top.orelse[0]
-    yield_ops = _ops_of_test(y.test, ops)
+    y = top.body[0]
+    yield_ops = _ops_of_test(y.test, ops, env)
     ybody = y.body
-    if len(ybody) == 1 and _src(ybody[0]) == "trace.add_yield_type(typ)":
+    if len(ybody) == 1 and env.m(ybody[0], "L_trace.add_yield_type(L_typ)"):
         guard = False
     elif len(ybody) == 1 and isinstance(ybody[0], ast.If) and not ybody[0].orelse \
-            and _src(ybody[0].test) in ("not frame.f_code.co_flags & inspect.CO_COROUTINE",
-                                        "not (frame.f_code.co_flags & inspect.CO_COROUTINE)") \
-            and len(ybody[0].body) == 1 and _src(ybody[0].body[0]) == "trace.add_yield_type(typ)":
+            and env.m(ybody[0].test, "not frame.f_code.co_flags & inspect.CO_COROUTINE") \
+            and len(ybody[0].body) == 1 and env.m(ybody[0].body[0], "L_trace.add_yield_type(L_typ)"):
         guard = True
     else:
         raise ExtractError("handle_return: yield branch: " + _src(y)[:200])
@@ -90,69 +144,93 @@ def handle_return(cls, ops):
     if len(els) != 3:
         raise ExtractError("handle_return: else branch must be `if <return op>: ...; del ...; log`")
     r = els[0]
-    if not (isinstance(r, ast.If) and not r.orelse and len(r.body) == 1 and _src(r.body[0]) == "trace.return_type = typ"):
+    if not (isinstance(r, ast.If) and not r.orelse and len(r.body) == 1 and env.m(r.body[0], "L_trace.return_type = L_typ")):
         raise ExtractError("handle_return: return-type assignment: " + _src(r)[:200])
-    return_ops = _ops_of_test(r.test, ops)
-    if _src(els[1]) != "del self.traces[frame]" or _src(els[2]) != "self.logger.log(trace)":
+    return_ops = _ops_of_test(r.test, ops, env)
+    if not env.m(els[1], "del self.traces[frame]") or not env.m(els[2], "self.logger.log(L_trace)"):
         raise ExtractError("handle_return: expected `del self.traces[frame]; self.logger.log(trace)`")
     return yield_ops, guard, return_ops
 
 
-def handle_call(cls):
-    """The order of the guards of handle_call, as tags."""
-    fn = _find_func(None, "handle_call", cls)
-    tags = []
-    for st in _strip_doc(fn.body):
-        s = _src(st)
-        if isinstance(st, ast.If) and s.startswith("if self.sample_rate and random.randrange(self.sample_rate) != 0:") \
-                and len(st.body) == 1 and isinstance(st.body[0], ast.Return) and not st.orelse:
-            tags.append("sample")
-        elif s == "func = self._get_func(frame)":
-            tags.append("lookup")
-        elif isinstance(st, ast.If) and _src(st.test) == "func is None" and isinstance(st.body[0], ast.Return) and not st.orelse:
-            tags.append("unresolved_return")
-        elif s == "code = frame.f_code":
-            pass
-        elif isinstance(st, ast.If) and _src(st.test) == "frame in self.traces" and isinstance(st.body[-1], ast.Return) \
-                and not st.orelse:
-            tags.append("resumed_return")
-        elif s == "arg_names = code.co_varnames[:code.co_argcount + code.co_kwonlyargcount]":
-            tags.append("argnames")
-        elif s == "arg_types = {}":
-            pass
-        elif isinstance(st, ast.For) and _src(st.target) == "name" and _src(st.iter) == "arg_names":
-            inner = st.body
-            if not (len(inner) == 1 and isinstance(inner[0], ast.If) and _src(inner[0].test) == "name in frame.f_locals"
-                    and len(inner[0].body) == 1 and not inner[0].orelse
-                    and _src(inner[0].body[0]).replace(" ", "") ==
-                    "arg_types[name]=get_type(frame.f_locals[name],max_typed_dict_size=self.max_typed_dict_size)"):
-                raise ExtractError("handle_call: binding loop: " + _src(st)[:300])
-            tags.append("bind")
-        elif s == "self.traces[frame] = CallTrace(func, arg_types)":
-            tags.append("store")
-        else:
-            raise ExtractError("handle_call: unrecognised statement: " + s[:200])
+_ARGNAMES = "L_code.co_varnames[:L_code.co_argcount + L_code.co_kwonlyargcount]"
+_BIND_LOOP = """for L_name in %s:
+    if L_name in frame.f_locals:
+        L_types[L_name] = get_type(frame.f_locals[L_name], max_typed_dict_size=self.max_typed_dict_size)"""
+
+
+def handle_call(canon, cls):
+    """The order of the guards of handle_call, as tags.  In the normal form a guard `if G: return` followed by the
+    rest of the function is `if not G: <rest>` as the last statement of its block."""
+    fn, _cx = canon.func("handle_call", cls)
+    tags, env = [], Env()
+    block = fn.body
+    while block is not None:
+        nxt = None
+        for i, st in enumerate(block):
+            last = i == len(block) - 1
+            if isinstance(st, ast.If):
+                if last and not st.orelse \
+                        and env.m(st.test, "not self.sample_rate or not random.randrange(self.sample_rate)"):
+                    tags.append("sample")
+                    nxt = st.body
+                elif last and not st.orelse and env.m(st.test, "L_func is not None"):
+                    tags.append("unresolved_return")
+                    nxt = st.body
+                elif last and not st.orelse and env.m(st.test, "frame not in self.traces"):
+                    tags.append("resumed_return")
+                    nxt = st.body
+                elif last and st.orelse and env.m(st.test, "frame in self.traces"):
+                    # `if frame in self.traces: <something>; return`
+                    tags.append("resumed_return")
+                    nxt = st.orelse
+                else:
+                    raise ExtractError("handle_call: unrecognised statement: " + _src(st)[:200])
+            elif env.m(st, "L_func = self._get_func(frame)", bind=["func"]):
+                tags.append("lookup")
+            elif env.m(st, "L_code = frame.f_code", bind=["code"]):
+                pass
+            elif env.m(st, "L_names = " + _ARGNAMES, bind=["names"]):
+                tags.append("argnames")
+            elif env.m(st, "L_types = {}", bind=["types"]):
+                pass
+            elif isinstance(st, ast.For):
+                if env.m(st, _BIND_LOOP % _ARGNAMES, bind=["name"]):
+                    tags.append("argnames")      # the slice is written (or was substituted) in the loop header
+                elif not env.m(st, _BIND_LOOP % "L_names", bind=["name"]):
+                    raise ExtractError("handle_call: binding loop: " + _src(st)[:300])
+                tags.append("bind")
+            elif env.m(st, "self.traces[frame] = CallTrace(L_func, L_types)"):
+                tags.append("store")
+            else:
+                raise ExtractError("handle_call: unrecognised statement: " + _src(st)[:200])
+        block = nxt
     return tags
 
 
-def dunder_call(cls):
-    fn = _find_func(None, "__call__", cls)
-    body = _strip_doc(fn.body)
-    if len(body) != 4 or _src(body[0]) != "code = frame.f_code" or _src(body[3]) != "return self":
+def dunder_call(canon, cls):
+    fn, cx = canon.func("__call__", cls)
+    body, env = fn.body, Env()
+    # normal form of `code = frame.f_code; if <gates>: return self; try: ...; return self`:
+    #   L_code = frame.f_code; if not <gates>: try: ...; return self
+    if len(body) != 3 or not env.m(body[0], "L_code = frame.f_code", bind=["code"]) or _src(body[2]) != "return self":
         raise ExtractError("__call__: skeleton")
-    gate = body[1]
-    if not (isinstance(gate, ast.If) and isinstance(gate.test, ast.BoolOp) and isinstance(gate.test.op, ast.Or)
-            and len(gate.body) == 1 and _src(gate.body[0]) == "return self" and not gate.orelse):
+    acc = body[1]
+    if not (isinstance(acc, ast.If) and not acc.orelse and len(acc.body) == 1):
         raise ExtractError("__call__: gate")
-    gates = [_src(v) for v in gate.test.values]
-    known = {"event not in SUPPORTED_EVENTS": "unsupported_event", "code.co_name == 'trace_types'": "trace_types",
-             "self.should_trace and (not self.should_trace(code))": "filter_rejects"}
+    gate = ast_canon.neg_nf(cx, acc.test)
+    if not (isinstance(gate, ast.BoolOp) and isinstance(gate.op, ast.Or)):
+        raise ExtractError("__call__: gate")
+    known = {"event not in SUPPORTED_EVENTS": "unsupported_event", "L_code.co_name == 'trace_types'": "trace_types",
+             "self.should_trace and (not self.should_trace(L_code))": "filter_rejects"}
     tags = []
-    for g in gates:
-        if g not in known:
-            raise ExtractError("__call__: unknown gate " + g)
-        tags.append(known[g])
-    tr = body[2]
+    for g in gate.values:
+        for tmpl, tag in known.items():
+            if env.m(g, tmpl):
+                tags.append(tag)
+                break
+        else:
+            raise ExtractError("__call__: unknown gate " + _src(g))
+    tr = acc.body[0]
     if not (isinstance(tr, ast.Try) and len(tr.handlers) == 1 and not tr.finalbody and not tr.orelse):
         raise ExtractError("__call__: try/except")
     h = tr.handlers[0]
@@ -170,11 +248,11 @@ def dunder_call(cls):
     return tags, h.type.id
 
 
-def trace_calls(tree):
-    fn = _find_func(tree, "trace_calls")
-    body = _strip_doc(fn.body)
-    if len(body) != 3 or _src(body[0]) != "old_trace = sys.getprofile()" \
-            or not _src(body[1]).startswith("sys.setprofile(CallTracer(logger, max_typed_dict_size, code_filter, sample_rate))"):
+def trace_calls(canon):
+    fn, _cx = canon.func("trace_calls")
+    body, env = fn.body, Env()
+    if len(body) != 3 or not env.m(body[0], "L_old = sys.getprofile()", bind=["old"]) \
+            or not env.m(body[1], "sys.setprofile(CallTracer(logger, max_typed_dict_size, code_filter, sample_rate))"):
         raise ExtractError("trace_calls: prologue")
     tr = body[2]
     if not (isinstance(tr, ast.Try) and not tr.handlers and not tr.orelse and len(tr.body) == 1
@@ -183,7 +261,7 @@ def trace_calls(tree):
     tags = []
     for st in tr.finalbody:
         s = _src(st)
-        if s == "sys.setprofile(old_trace)":
+        if env.m(st, "sys.setprofile(L_old)"):
             tags.append("restore")
         elif s == "logger.flush()":
             tags.append("flush")
@@ -196,25 +274,30 @@ def trace_calls(tree):
     return tags
 
 
-def store_logger(tree):
-    cls = _find_class(tree, "CallTraceStoreLogger")
-    log = _strip_doc(_find_func(None, "log", cls).body)
+def store_logger(canon):
+    cls = _find_class(canon.tree, "CallTraceStoreLogger")
+    log = canon.func("log", cls)[0].body
+    # `not x == '__main__'` and `x != '__main__'` have the same normal form (str operands)
     if not (len(log) == 1 and isinstance(log[0], ast.If) and not log[0].orelse
-            and _src(log[0].test) in ("not trace.func.__module__ == '__main__'", "trace.func.__module__ != '__main__'")
+            and _src(log[0].test) == "trace.func.__module__ != '__main__'"
             and len(log[0].body) == 1 and _src(log[0].body[0]) == "self.traces.append(trace)"):
         raise ExtractError("CallTraceStoreLogger.log")
-    fl = [_src(s) for s in _strip_doc(_find_func(None, "flush", cls).body)]
+    fl = [_src(s) for s in canon.func("flush", cls)[0].body]
     if fl != ["self.store.add(self.traces)", "self.traces = []"]:
         raise ExtractError("CallTraceStoreLogger.flush: " + repr(fl))
     return "__main__"
 
 
-def add_yield(tree):
-    cls = _find_class(tree, "CallTrace")
-    fn = _strip_doc(_find_func(None, "add_yield_type", cls).body)
-    if not (len(fn) == 1 and isinstance(fn[0], ast.If) and _src(fn[0].test) == "self.yield_type is None"
-            and _src(fn[0].body[0]) == "self.yield_type = typ"
-            and _src(fn[0].orelse[0]) == "self.yield_type = cast(type, Union[self.yield_type, typ])"):
+def add_yield(canon):
+    cls = _find_class(canon.tree, "CallTrace")
+    fn = canon.func("add_yield_type", cls)[0]
+    params = [a.arg for a in fn.args.args]
+    if len(params) != 2 or params[0] != "self" or fn.args.vararg or fn.args.kwarg or fn.args.kwonlyargs:
+        raise ExtractError("CallTrace.add_yield_type: signature")
+    t, body = params[1], fn.body
+    if not (len(body) == 1 and isinstance(body[0], ast.If) and _src(body[0].test) == "self.yield_type is None"
+            and [_src(s) for s in body[0].body] == [f"self.yield_type = {t}"]
+            and [_src(s) for s in body[0].orelse] == [f"self.yield_type = cast(type, Union[self.yield_type, {t}])"]):
         raise ExtractError("CallTrace.add_yield_type")
     return True
 
@@ -224,12 +307,19 @@ def render():
     base = _parse("monkeytype/db/base.py")
     ops = _opcode_table(tr)
     cls = _find_class(tr, "CallTracer")
-    yops, guard, rops = handle_return(cls, ops)
-    hc = handle_call(cls)
-    gates, caught = dunder_call(cls)
-    fin = trace_calls(tr)
-    main = store_logger(base)
-    add_yield(tr)
+    # every module of the package: the closed world in which a private method is known not to be overridden
+    universe = []
+    for d, _dirs, files in sorted(os.walk(os.path.join(common.REPO, "monkeytype"))):
+        for f in sorted(files):
+            if f.endswith(".py"):
+                universe.append(_parse(os.path.relpath(os.path.join(d, f), common.REPO)))
+    canon = Canon(tr, universe)
+    yops, guard, rops = handle_return(canon, cls, ops)
+    hc = handle_call(canon, cls)
+    gates, caught = dunder_call(canon, cls)
+    fin = trace_calls(canon)
+    main = store_logger(Canon(base, universe))
+    add_yield(canon)
 
     def sl(xs):
         return "[" + "; ".join(_cs(x) for x in xs) + "]"
